@@ -429,7 +429,8 @@ class Node(object):
                 k = "%s[%d]" % (s, iso.isotope)
                 g(keys, k + ".mass", lambda: [iso.mass, iso._mass_unc])
                 g(keys, k + ".abundance", lambda: [iso.abundance, iso._abundance_unc])
-            for q in el.ions[:1] + el.ions[-1:]:
+            ions = sorted(el.ions)
+            for q in ions[:1] + ions[-1:]:
                 g(keys, "%s{%d}.mass" % (s, q), lambda: el.ion[q].mass)
 
     def dg_density(self, tbl, t, keys):
@@ -440,7 +441,7 @@ class Node(object):
             g(keys, s + ".density_caveat", lambda: el.density_caveat)
             g(keys, s + ".number_density", lambda: el.number_density)
             g(keys, s + ".interatomic_distance", lambda: el.interatomic_distance)
-            isos = el.isotopes
+            isos = sorted(el.isotopes)
             for A in isos[:1] + isos[-1:]:
                 g(keys, "%s[%d].density" % (s, A), lambda: el[A].density)
 
